@@ -232,7 +232,7 @@ def c14_spec():
         if not b.path:
             fold_ = fold
             return finish(p, tier, seed, fold, {'level': 'exploration', 'rule': ''}, t0, harness_fail='monitor does not build: ' + (b.error or '')[-400:])
-        rundir = os.path.join(CK.CACHE, 'run', p)
+        rundir = os.path.join(CK.CACHE, 'run', '%s-%d' % (p, os.getpid()))
         if os.path.isdir(rundir): shutil.rmtree(rundir)
         os.makedirs(rundir)
         launches = 48 if tier == 'quick' else 1500
@@ -275,6 +275,7 @@ def c14_spec():
                 for _ in range(d['n']): fold.viol(key, 1.0, {'report': d['first'], 'count': d['n']})
             else:
                 fold.notes.append('ThreadSanitizer report without a frame in /repo/include (not attributed to manif): ' + key)
+        shutil.rmtree(rundir, ignore_errors=True)
         spec = {'level': 'exploration', 'rule': '%d launches of the TSan-instrumented monitor with %s threads (round robin), each launch releasing its threads from a spinning barrier so that the first use in the process of every function-local static '
                 '(Identity, setIdentity zero, Zero, every Generator table, InnerWeights, the constant Jacobians/adjoints of SO2 and Rn) of 11 group instantiations happens concurrently; every thread then runs 22 const operations per group on shared const '
                 'elements, tangents and Map<const> views in a per-thread shuffled order with random sched_yield/nanosleep injections (off in every third launch); per-thread results are compared bit for bit with a single-threaded run; a cell is (group, thread count); '
@@ -359,7 +360,7 @@ def c19_spec():
         names = {k: n for k, n, _, _, _ in allcells}
         groups = GROUPS_Q if tier == 'quick' else GROUPS_T
         combos = [(g, sc) for g in groups for sc in ('double', 'float')]
-        wd = os.path.join(CK.CACHE, 'c19'); os.makedirs(wd, exist_ok=True)
+        wd = os.path.join(CK.CACHE, 'c19'); os.makedirs(wd, exist_ok=True)   # binaries are keyed by content hash, shared between runs
         fold = Fold(); fail = None
         th = CK.tree_hash()
 
